@@ -32,6 +32,7 @@ func runC03(c *Ctx) {
 	// ---- (0) conditional role managers (not modelled): cycles must not hang or crash Enforce (child process)
 	condCycles(c)
 	subjectDags(c)
+	c03PatternLoads(c)
 	// ---- (A) enforcement
 	fams := c01Families()
 	weird := func(f Family) [][]V {
